@@ -129,7 +129,7 @@ def m_ele_surgery(rng, terms, segs):
         return
     i = rng.choice(idx)
     sid, els = segs[i]
-    k = rng.choice(['empty', 'long', 'extra-ele', 'extra-comp', 'ackdelim', 'canary', 'ctrl', 'clear-all', 'drop-tail', 'spaces', 'nonascii', 'huge'])
+    k = rng.choice(['empty', 'long', 'extra-ele', 'extra-comp', 'ackdelim', 'canary', 'ctrl', 'clear-all', 'drop-tail', 'spaces', 'nonascii', 'huge', 'typed-garbage', 'typed-garbage', 'format-qualifier'])
     used = set(terms)
     if k == 'clear-all':
         segs[i][1] = []
@@ -139,12 +139,25 @@ def m_ele_surgery(rng, terms, segs):
             del els[rng.randint(0, len(els) - 1):]
         return
     if k == 'extra-ele':
-        for _ in range(rng.choice([1, 2, 30])):
+        for _ in range(rng.choice([1, 2, 30, 120])):       # designators are two-digit: a segment with 100+ elements is beyond them
             els.append([rng.choice(['X', '', '1'])])
+        return
+    if k == 'format-qualifier':
+        # a date/time format qualifier switched under its value: the value is then judged as another type (range without hyphen, date as time ...)
+        FM = ['D8', 'RD8', 'DT', 'TM', 'D6']
+        cand = [(a, b) for a, s2 in enumerate(segs) for b, e2 in enumerate(s2[1]) if e2 and e2[0] in FM and a > 0]
+        if cand:
+            a, b = rng.choice(cand)
+            segs[a][1][b] = [rng.choice([f for f in FM if f != segs[a][1][b][0]])]
         return
     if not els:
         els.append([''])
     j = rng.randint(0, len(els) - 1)
+    if k == 'typed-garbage':
+        # values that are nearly dates, ranges, times and numbers: the recognisers' edge cases, wherever they land
+        els[j] = [rng.choice(['20070301', '2007030', '-', '--', '1-2', '20070301-', '-20070301', '20070301-20070302-20070303', '2400', '2561', '.', '-.', '1.2.3', '99999999',
+                              '00000000', '000000', '0', '200703011260', '20070301126', '-0', '+1', '1e5', ' 1', '1 ', '０１', '²', '\u0661\u0662', 'NaN', '१२३'])]
+        return
     if k == 'empty':
         els[j] = ['']
     elif k == 'long':
